@@ -45,6 +45,7 @@ fn main() {
         "C03" => drive::<vcore::c03::C03>(&args),
         "C10" => drive::<vcore::c10::C10>(&args),
         "C11" => drive::<vcore::c11::C11>(&args),
+        "C16" => drive::<vcore::c16::C16>(&args),
         "C15" => drive::<vcore::c15::C15>(&args),
         _ => {
             eprintln!("unknown property id {id}");
